@@ -178,6 +178,70 @@ theorem normStatio_ne_mean_of_sq_dev (w L : ℚ) (l : List ℚ) (hL : L ≠ 0)
   have := mul_left_cancel₀ hw heq
   linarith
 
+/-! ### separable networks (SPINN): which grid, and how a vector-valued `u` is treated -/
+
+/-- for an `m`-component `u` the mean over axes `(grid, components)` is the mean over the grid of
+    the component means: a vector-valued `u` is averaged over its components as well -/
+theorem meanAll_map_eq_mean_of_means {α : Type} (u : α → List ℚ) (pts : List α) (m : Nat)
+    (h : ∀ p, (u p).length = m) : meanAll (pts.map u) = mean (pts.map fun p => mean (u p)) := by
+  have : (pts.map u).flatten = pts.flatMap u := by
+    induction pts with
+    | nil => rfl
+    | cons a l ih => simp [List.flatMap_cons, ih]
+  rw [meanAll, this]
+  exact mean_flatMap_const pts u m h
+
+/-- **stationary SPINN normalisation**: `w (L · mean over the tensor grid of the sample coordinate
+    columns (and over the components) of u − 1)²`. -/
+theorem normStatioSpinn_closed_form (d : Nat) (w L : ℚ) (u : List ℚ → List ℚ) (samples : List (List ℚ))
+    (boundary : Option ℚ) :
+    (lossStatioSpinn d (some (w, L, u, samples)) boundary).2.norm =
+      w * sqr (meanAll ((gridPts d samples).map u) * L - 1) := by
+  simp [lossStatioSpinn, evalStatio, normStatio, Slice.apply]
+
+theorem mean_repTimes {T : Type} (f : T → ℚ) (ts : List T) (ns : Nat) (h : 0 < ns / ts.length) :
+    mean ((repTimes ts ns).map f) = mean (ts.map f) := by
+  unfold repTimes
+  rw [List.map_flatMap]
+  rw [mean_flatMap_const ts _ (ns / ts.length) (by intro t; simp)]
+  congr 1
+  apply List.map_congr_left
+  intro t _
+  rw [List.map_replicate]
+  have hpos : ns / ts.length ≠ 0 := by omega
+  have hne : List.replicate (ns / ts.length) (f t) ≠ [] := by simpa using hpos
+  have := mean_map_const (List.replicate (ns / ts.length) (f t)) (f t) hne
+  simpa using this
+
+/-- **non-stationary SPINN normalisation**: the times of the batch are repeated `n_samples / n_times`
+    times to match the sample count; the term is nevertheless
+    `w · mean over the batch times of (L · mean over the sample grid and components of u(t, ·) − 1)²`,
+    whatever the ratio (1×, 2×, 3× …). -/
+theorem normNonStatioSpinn_closed_form (d : Nat) (w L : ℚ) (u : ℚ → List ℚ → List ℚ)
+    (samples : List (List ℚ)) (boundary : Option ℚ)
+    (ic : Option (Weight × (List ℚ → List ℚ) × (List ℚ → List ℚ))) (inside : List (ℚ × List ℚ))
+    (h : 0 < samples.length / inside.length) :
+    (lossNonStatioSpinn d (some (w, L, u, samples)) boundary ic inside).2.norm =
+      w * mean ((inside.map (·.1)).map fun t =>
+        sqr (meanAll ((gridPts d samples).map (u t)) * L - 1)) := by
+  have h' : 0 < samples.length / (inside.map (·.1)).length := by simpa using h
+  simp only [lossNonStatioSpinn, evalNonStatio, evalStatio, Option.map_some, Option.getD_some,
+    normNonStatio, Slice.apply]
+  rw [mean_repTimes _ _ _ h']
+
+/-- **SPINN initial condition**: the PDE initial-condition aggregation over the tensor grid of the
+    space columns of the inside batch, at `t = 0`. -/
+theorem icSpinn_closed_form (d : Nat)
+    (norm : Option (ℚ × ℚ × (ℚ → List ℚ → List ℚ) × List (List ℚ))) (boundary : Option ℚ)
+    (w : Weight) (u0 uAt0 : List ℚ → List ℚ) (inside : List (ℚ × List ℚ)) :
+    (lossNonStatioSpinn d norm boundary (some (w, u0, uAt0)) inside).2.ic =
+      icPDE w u0 uAt0 (gridPts d (inside.map (·.2))) := by
+  simp [lossNonStatioSpinn, evalNonStatio, evalStatio]
+
+/-- non-vacuity: 2 batch times, 4 samples: each time is repeated twice -/
+example : repTimes [(5 : ℚ), 7] 4 = [5, 5, 7, 7] := by simp [repTimes]
+example : (0 : Nat) < 4 / ([(5 : ℚ), 7] : List ℚ).length := by decide
+
 /-! ### observations -/
 
 theorem rowParams_lookup {κ : Type} [BEq κ] [LawfulBEq κ] (caller : List (κ × ℚ))
